@@ -77,6 +77,6 @@ def distribution(recs):
 
 MANIFEST = {
  "engine": "lean-proof + whole runs",
- "text": "Machine model of the trigger loop over an abstract ticker (first evaluation, request, ticker creation, deliveries that respect 'k-th tick no earlier than creation + k*interval' with a one-slot buffer, receive-and-evaluate, stop): in every reachable state evaluations <= 1 + ticks fired (C09_count), hence by elapsed time e since the first evaluation at most 1 + floor(e/interval) evaluations have been made (C09_cadence_reachable via the Timing invariant and ticks_by_time), and a request is accepted only with exactly the value the pending evaluation returned (C09_request_is_value). Tie: whole runs with a wrapping rate function logging monotonic timestamps and values, including a deliberately slow evaluation.",
+ "text": "Machine model of the trigger loop over an abstract ticker (first evaluation, request, ticker creation, deliveries that respect 'k-th tick no earlier than creation + k*interval' with a one-slot buffer, receive-and-evaluate, stop): in every reachable state evaluations <= 1 + ticks fired (C09_count), hence by elapsed time e since the first evaluation at most 1 + floor(e/interval) evaluations have been made (C09_cadence_reachable via the Timing invariant and ticks_by_time), and a request is accepted only with exactly the value the pending evaluation returned (C09_request_is_value). Tie: whole runs with a wrapping rate function logging monotonic timestamps and values, including a deliberately slow evaluation. The tick loop of NewIterationWorker is regenerated (RefineC09W): n ticks received = n + 1 evaluations = n + 1 triggers, each trigger with the value just obtained, for every script of select choices.",
  "note": "Partial: Go's time.Ticker contract is assumed (it is the hypothesis of the model's deliver event); the real ticker is monitored with stall-robust inequalities. One call site per tick in NewIterationWorker is additionally a regenerated statement-order fact.",
  "technique": "Lean 4 invariants over a timed event model + monitoring of real runs with stall-robust inequalities"}
